@@ -120,6 +120,9 @@ def gen_multi_buffer(rng, mods):
     probes.append({'m': 'rename_diff', 'l': 1, 'c': 0, 'new': 'zz'})           # RefactoringError (keyword)
     probes.append({'m': 'get_names', 'kw': {'all_scopes': True}, 'light': True})
     probes.append({'m': 'get_syntax_errors'})
+    probes.append({'m': 'search', 'q': rng.choice(['Klass', 'func', 'pick', 'inst', a + '.func'])})
+    probes.append({'m': 'complete_search', 'q': rng.choice(['Kla', 'fun', 'V', a + '.'])})
+    probes.append({'m': 'get_context', 'l': max(1, nlines - 1), 'c': 0})
     return b.text, probes
 
 
@@ -244,7 +247,8 @@ def gen_case(seed, tier, i):
         b = world.gen_probe_buffer(rng, list(w.mods), max_probes=7)
         text, probes = b.text, list(b.probes)
         probes.append({'m': 'complete', 'l': 999, 'c': 0})
-    probes = probes[:14]
+    rng.shuffle(probes)
+    probes = probes[:16]
     nconf = 3 if tier == 'quick' else 6
     configs = [{'hashseed': 0, 'perturb': None, 'gc_auto': False, 'gc_each': False}]
     for j in range(nconf):
